@@ -48,6 +48,9 @@ pub enum Traversal {
 #[derive(Clone, Debug, Serialize, Deserialize)]
 pub enum OutFormat {
     Json,
+    /// one JSON array over the whole file (`newline_delimited = false`); only C12 uses it (no listed property
+    /// speaks about the contents of such a file, but writing it must not hang or panic either)
+    JsonArray,
     Csv { mapping: Vec<(String, Value)>, sorted: bool },
 }
 
@@ -655,6 +658,7 @@ impl World {
         let file_policy = |o: &OutFile, path: String| -> Value {
             let format = match &o.format {
                 OutFormat::Json => json!({"type": "json", "newline_delimited": true}),
+                OutFormat::JsonArray => json!({"type": "json", "newline_delimited": false}),
                 OutFormat::Csv { mapping, sorted } => {
                     let mut m = serde_json::Map::new();
                     for (k, v) in mapping {
